@@ -1,4 +1,5 @@
 import NixModel.Pure.Version
+import NixModel.Generated.H5Handlers
 import NixModel.Lemmas.C11
 import NixModel.Lemmas.C11Path
 import NixModel.Lemmas.C11Uuid
@@ -633,6 +634,13 @@ theorem C11_changes_only (mode : Str) (n : Node) (fid : Str) (hc : (openPath mod
               simp [finishOpen]
 
 /-! ## histories -/
+
+/-- **The layer that talks to libhdf5 passes write errors on.** The stand-in `step` (a mutator in a
+read-only session is *refused*) presupposes that nixio does not swallow libhdf5's refusal: no
+`except` clause in `nixio/hdf5/*.py` that never raises guards a block that writes to the file
+(the list is regenerated from the source on every run). -/
+theorem C11_h5_layer_passes_write_errors_on :
+    ∀ h ∈ Nix.Gen.H5Handlers.swallowing, h.2.2.2 = false := by decide
 
 /-- an event that a program confined to read-only access may issue -/
 def Ev.passive : Ev → Prop
